@@ -27,6 +27,7 @@ func main() {
 		goarch  = flag.String("goarch", "", "override GOARCH for the analysed build")
 		selfAll = flag.Bool("selftest", false, "run the whole self-test corpus and print a table")
 		manif   = flag.String("manifest", "", "write MANIFEST.json generated from the property table to this path")
+		anchors = flag.String("anchors", "", "write the anchor baseline (fingerprints of the library's functions on the current tree) to this path")
 	)
 	flag.Parse()
 	if t := os.Getenv("VERIF_TIER"); t == "quick" || t == "thorough" {
@@ -40,6 +41,16 @@ func main() {
 	}
 
 	switch {
+	case *anchors != "":
+		p, err := Load(LoadConfig{})
+		if err == nil {
+			err = writeAnchors(newCtx(p, "quick"), *anchors)
+		}
+		if err != nil {
+			fmt.Fprintln(os.Stderr, err)
+			os.Exit(2)
+		}
+		return
 	case *manif != "":
 		if err := writeManifest(*manif); err != nil {
 			fmt.Fprintln(os.Stderr, err)
@@ -83,6 +94,12 @@ func runOne(pd *Property, cfg LoadConfig, tier string) (rep *Report, prog *Progr
 		return rep, nil
 	}
 	c := newCtx(p, tier)
+	defer func() {
+		for _, n := range anchorNotes {
+			rep.note("%s", n)
+		}
+		anchorNotes = nil
+	}()
 	for _, rd := range pd.Rules {
 		func() {
 			defer func() {
